@@ -3,6 +3,7 @@
 EXTENDS OpProgram
 L_Leaves == <<
   V("x", RealD), V("y", Dom(0, <<2>>)), NS(Q(2, 1)), V("i", BintD(3)) >>
+L_LeavesQ == <<V("x", RealD), V("y", Dom(0, <<2>>)), NS(Q(2, 1))>>   \* quick configuration
 L_UnOps == <<Op0("neg")>>
 L_BinOps == <<Op0("sub"), Op0("truediv")>>
 L_ConOps == <<"add", "mul", "max">>
